@@ -8,9 +8,12 @@
                                      remove_traffic_light 1680-1688 (cleanup runs even when the id is unknown),
                                      cleanup_traffic_light_references 1690-1698, remove_intersection 1709-1716,
                                      create_from_lanelet_list 1431-1460, create_from_lanelet_network 1462-1563
-    commonroad/scenario/scenario.py  remove_hanging_lanelet_members 913-942, remove_lanelet 944-968,
-                                     remove_traffic_sign 970-988, remove_traffic_light 990-1009,
-                                     remove_intersection (single object) 1011-1031
+    commonroad/scenario/scenario.py  remove_hanging_lanelet_members 908-936, remove_lanelet 938-964,
+                                     remove_traffic_sign 967-986, remove_traffic_light 988-1008,
+                                     remove_intersection (single object) 1010-1033
+  (scenario.py as in the repaired tree: every scenario-level removal first looks the element up in the network and
+  raises `KeyError` without touching anything when it is not there; lanelet.py line numbers are those of the tree the
+  model was written against, the functions are unchanged)
 
   Python `dict`s are lists of records in insertion order (keys unique), Python `set`s are lists; the
   correspondence compares them as sorted lists, the theorems speak about membership only.
@@ -228,34 +231,38 @@ structure RmArg where
 def Scn.idsRemove (s : Scn) (i : Id) : Scn × Option Err :=
   if s.ids.contains i then ({ s with ids := s.ids.filter (· != i) }, none) else (s, some .key)
 
-/-- scenario.py:982-985 loop (also the single-object form, 987-988). -/
+/-- scenario.py:967-986 `Scenario.remove_traffic_sign` (list form = the single form in a loop; the single form raises
+`KeyError` before touching anything when the network does not hold the sign). -/
 def Scn.removeSigns : Scn → List Id → Scn × Option Err
   | s, [] => (s, none)
   | s, i :: is =>
-    let s1 := { s with net := s.net.removeSign i }
-    match s1.idsRemove i with
-    | (s2, none) => s2.removeSigns is
-    | r => r
+    if s.net.sids.contains i then
+      match ({ s with net := s.net.removeSign i } : Scn).idsRemove i with
+      | (s2, none) => s2.removeSigns is
+      | r => r
+    else (s, some .key)
 
-/-- scenario.py:1003-1006 loop (also the single-object form). -/
+/-- scenario.py:988-1008 `Scenario.remove_traffic_light`. -/
 def Scn.removeLights : Scn → List Id → Scn × Option Err
   | s, [] => (s, none)
   | s, i :: is =>
-    let s1 := { s with net := s.net.removeLight i }
-    match s1.idsRemove i with
-    | (s2, none) => s2.removeLights is
-    | r => r
+    if s.net.tids.contains i then
+      match ({ s with net := s.net.removeLight i } : Scn).idsRemove i with
+      | (s2, none) => s2.removeLights is
+      | r => r
+    else (s, some .key)
 
-/-- scenario.py:966-968 loop. -/
+/-- scenario.py:960-964 loop of `Scenario.remove_lanelet`. -/
 def Scn.removeLaneletLoop : Scn → List Id → Scn × Option Err
   | s, [] => (s, none)
   | s, i :: is =>
-    let s1 := { s with net := s.net.removeLanelet i }
-    match s1.idsRemove i with
-    | (s2, none) => s2.removeLaneletLoop is
-    | r => r
+    if s.net.lids.contains i then
+      match ({ s with net := s.net.removeLanelet i } : Scn).idsRemove i with
+      | (s2, none) => s2.removeLaneletLoop is
+      | r => r
+    else (s, some .key)
 
-/-- scenario.py:920-939: ids of the signs / lights to be removed with the lanelets `args`. -/
+/-- scenario.py:915-933: ids of the signs / lights to be removed with the lanelets `args`. -/
 def Net.hangingSigns (n : Net) (args : List RmArg) : List Id :=
   let rm := args.map (·.id)
   let remaining := n.lanelets.filter (fun l => !rm.contains l.id)
@@ -270,7 +277,7 @@ def Net.hangingLights (n : Net) (args : List RmArg) : List Id :=
   let save := remaining.flatMap (·.lights)
   n.tids.filter (fun t => del.contains t && !save.contains t)
 
-/-- scenario.py:913-942 -/
+/-- scenario.py:908-936 -/
 def Scn.removeHanging (s : Scn) (args : List RmArg) : Scn × Option Err :=
   let ss := s.net.hangingSigns args
   let ts := s.net.hangingLights args
@@ -278,7 +285,7 @@ def Scn.removeHanging (s : Scn) (args : List RmArg) : Scn × Option Err :=
   | (s1, none) => s1.removeLights ts
   | r => r
 
-/-- scenario.py:944-968 -/
+/-- scenario.py:938-964 -/
 def Scn.removeLanelets (s : Scn) (args : List RmArg) (referenced : Bool) : Scn × Option Err :=
   if referenced then
     match s.removeHanging args with
@@ -294,9 +301,13 @@ def Scn.idsRemoveAll : Scn → List Id → Scn × Option Err
     | (s1, none) => s1.idsRemoveAll is
     | r => r
 
-/-- scenario.py:1028-1031 (single `Intersection` object with incoming ids `incIds`). -/
-def Scn.removeInter (s : Scn) (x : Id) (incIds : List Id) : Scn × Option Err :=
-  ({ s with net := s.net.removeInter x }).idsRemoveAll (x :: incIds)
+/-- scenario.py:1010-1033 `Scenario.remove_intersection` (single object): `KeyError` when the network does not hold an
+intersection with this id; otherwise the id of the intersection and the ids of the incoming elements of the *contained*
+intersection leave the id pool. -/
+def Scn.removeInter (s : Scn) (x : Id) : Scn × Option Err :=
+  match s.net.inters.find? (fun i => i.id == x) with
+  | none => (s, some .key)
+  | some i => ({ s with net := s.net.removeInter x } : Scn).idsRemoveAll (x :: i.incomings.map (·.id))
 
 inductive Op where
   | netRemoveLanelet (x : Id)
@@ -306,7 +317,7 @@ inductive Op where
   | scnRemoveLanelets (args : List RmArg) (referenced : Bool)
   | scnRemoveSigns (xs : List Id)
   | scnRemoveLights (xs : List Id)
-  | scnRemoveInter (x : Id) (incIds : List Id)
+  | scnRemoveInter (x : Id)
   /-- `create_from_lanelet_network`; the result becomes the network of a fresh scenario (`add_objects`). -/
   | cutOut (keep : List Id) (cleanup : Bool)
   /-- `create_from_lanelet_list`; the result becomes the network of a fresh scenario. -/
@@ -322,7 +333,7 @@ def Scn.step (s : Scn) : Op → Scn × Option Err
   | .scnRemoveLanelets args r => s.removeLanelets args r
   | .scnRemoveSigns xs => s.removeSigns xs
   | .scnRemoveLights xs => s.removeLights xs
-  | .scnRemoveInter x incIds => s.removeInter x incIds
+  | .scnRemoveInter x => s.removeInter x
   | .cutOut keep c =>
     match s.net.cutOut (fun a => keep.contains a) c with
     | .ok n' => ({ net := n', ids := n'.allIds }, none)
@@ -369,5 +380,73 @@ def Wf (n : Net) : Prop :=
   ∀ l ∈ n.lanelets, (∀ a ∈ l.stopS, a ∈ l.signs) ∧ (∀ a ∈ l.stopT, a ∈ l.lights)
 
 instance (n : Net) : Decidable (Wf n) := by unfold Wf; exact inferInstance
+
+/-! ### which elements an operation *selects for removal* (the reading of "not selected for removal" used by the
+history-level presence theorem `C10_present_run`; compared with the oracle's reading on every step) -/
+
+/-- a cut-out drops an incoming element that keeps no incoming lanelet or no successor (`L` = the kept lanelets) -/
+def cutDropsB (L : Id → Bool) (k : Incoming) : Bool :=
+  k.inc.all (fun a => !L a) || (k.right ++ k.straight ++ k.left).all (fun a => !L a)
+
+def Op.selLB (_ : Scn) : Op → Id → Bool
+  | .netRemoveLanelet x, a => a == x
+  | .scnRemoveLanelets args _, a => (args.map (·.id)).contains a
+  | .cutOut keep _, a => !keep.contains a
+  | .fromList sel _, a => !sel.contains a
+  | _, _ => false
+
+def Op.selSB (s : Scn) : Op → Id → Bool
+  | .netRemoveSign x, t => t == x
+  | .scnRemoveSigns xs, t => xs.contains t
+  | .scnRemoveLanelets args r, t => r && (s.net.hangingSigns args).contains t
+  | .cutOut keep _, t => !(s.net.lanelets.any fun l => keep.contains l.id && l.signs.contains t)
+  | .fromList _ _, _ => true
+  | _, _ => false
+
+def Op.selTB (s : Scn) : Op → Id → Bool
+  | .netRemoveLight x, t => t == x
+  | .scnRemoveLights xs, t => xs.contains t
+  | .scnRemoveLanelets args r, t => r && (s.net.hangingLights args).contains t
+  | .cutOut keep _, t => !(s.net.lanelets.any fun l => keep.contains l.id && l.lights.contains t)
+  | .fromList _ _, _ => true
+  | _, _ => false
+
+def Op.selKB (s : Scn) : Op → Id × Id → Bool
+  | .netRemoveInter x, y => y.1 == x
+  | .scnRemoveInter x, y => y.1 == x
+  | .cutOut keep _, y => s.net.inters.all fun i => !(i.id == y.1) || i.incomings.all fun k =>
+      !(k.id == y.2) || cutDropsB (fun a => s.net.lids.contains a && keep.contains a) k
+  | .fromList _ _, _ => true
+  | _, _ => false
+
+def Op.selIB (s : Scn) : Op → Id → Bool
+  | .netRemoveInter x, y => y == x
+  | .scnRemoveInter x, y => y == x
+  | .cutOut keep _, y => s.net.inters.all fun i => !(i.id == y) || i.incomings.all fun k =>
+      cutDropsB (fun a => s.net.lids.contains a && keep.contains a) k
+  | .fromList _ _, _ => true
+  | _, _ => false
+
+/-- the elements of the current network an operation selects: lanelet, sign, light, intersection ids and
+(intersection id, incoming id) pairs -/
+structure Selection where
+  lan : List Id
+  sign : List Id
+  light : List Id
+  inter : List Id
+  inc : List (Id × Id)
+  deriving DecidableEq, Repr, Inhabited
+
+def Scn.selection (s : Scn) (op : Op) : Selection :=
+  { lan := s.net.lids.filter (op.selLB s)
+    sign := s.net.sids.filter (op.selSB s)
+    light := s.net.tids.filter (op.selTB s)
+    inter := s.net.iids.filter (op.selIB s)
+    inc := (s.net.inters.flatMap fun i => i.incomings.map fun k => (i.id, k.id)).filter (op.selKB s) }
+
+/-- the selections met along a history -/
+def Scn.selections : Scn → List Op → List Selection
+  | _, [] => []
+  | s, o :: os => s.selection o :: (s.step o).1.selections os
 
 end CR.Refs
